@@ -22,7 +22,7 @@ def run_one(m, tier, extra):
       if s.count(old) != 1:
         return {"id": m["id"], "result": "PATCH-FAILED(%d matches)" % s.count(old)}
       open(p, "w").write(s.replace(old, new))
-    env = dict(os.environ, VMON_REPO=scratch, VMON_EVIDENCE=os.path.join(scratch, "ev.json"))
+    env = dict(os.environ, VMON_REPO=scratch, VMON_EVIDENCE=os.path.join(scratch, "ev.json"), VMON_REPLAYS=os.path.join(scratch, "replays"))
     t0 = time.time()
     p = subprocess.run([os.path.join(ROOT, "check"), m["property"], "--tier", tier] + extra,
                        env=env, capture_output=True, text=True)
@@ -33,7 +33,6 @@ def run_one(m, tier, extra):
             "first": (lines[0][:300] if lines else "")}
   finally:
     shutil.rmtree(scratch, ignore_errors=True)
-    subprocess.run(["git", "-C", ROOT, "clean", "-fdq", "replays"], check=False)
 
 
 def main():
